@@ -24,7 +24,7 @@ THEOREMS = ['C10_idempotent', 'C10_ascii_clean', 'C10_canonical', 'C10_idempoten
             'C10_equiv_host_case_url_partial', 'C10_equiv_dot_segments_whole_url_partial', 'C10_equiv_host_case_whole_url_partial',
             'C10_equiv_default_port_whole_url_partial', 'C10_equiv_fragment_whole_url_partial', 'C10_equiv_ipv4_whole_url_partial', 'C10_equiv_spellings',
             'C10_equiv_escape_case_whole_url_partial', 'C10_utf8_encoder_high_ok',
-            'C10_equiv_escape_case_path_whole_url_partial', 'C10_flatten_path_hexcase', 'C10_equiv_ipv6_whole_url_partial']
+            'C10_equiv_escape_case_path_whole_url_partial', 'C10_flatten_path_hexcase', 'C10_equiv_ipv6_whole_url_partial', 'C10_equiv_userinfo_whole_url_partial']
 TRUSTED = [
     'harness/translate/consts.py (fail-closed AST evaluator of constant definitions) -> coq/Gen/Consts.v, regenerated every run; Proofs/ConstsAgree.v proves the model\'s constants equal to it for every value',
         'hand-written model Model/Url.v + Model/UrlLib.v of wpull/url.py, tied by the vm_compute correspondence of this run '
@@ -813,8 +813,8 @@ LEVEL_TEXT = ('Coq theorems over the executable model of wpull/url.py, for ALL i
               'the default, an absolute path without dot or empty segments and only upper-case escapes (C10_canonical); component laws for '
               'flatten_path, percent_encode and uppercase_percent_encoding; UTF-8 satisfies the encoder hypothesis (C10_utf8_encoder_ok). '
               'All closed under the global context. The clause "spellings that differ only in those respects normalize to the same '
-              'string" is ONE theorem for the closure - any number of steps, any order, either direction - of nine re-spelling steps '
-              'of the whole URL text (C10_equiv_spellings: scheme case, explicit default port, host case, IPv4 and IPv6 notation, dropped path '
+              'string" is ONE theorem for the closure - any number of steps, any order, either direction - of ten re-spelling steps '
+              'of the whole URL text (C10_equiv_spellings: scheme case, explicit default port, host case, IPv4 and IPv6 notation, user-info that decodes alike, dropped path '
               'segments, hex-digit case of escapes in path / query / fragment, dropped fragment); the steps are theorems of their own (C10_equiv_*_partial): scheme letter case for the whole URL and arbitrary input text; an '
               'explicit default port at the level of parse_network for arbitrary text; host letter case and inserted "/.", "//", "/x/.." '
               'segments both at the level of the component normalizer and, lifted through the component split, at the level of '
@@ -825,8 +825,8 @@ LEVEL_TEXT = ('Coq theorems over the executable model of wpull/url.py, for ALL i
               'scanner delimits them); a dropped fragment at the level of parse_network for arbitrary text (C10_equiv_fragment_partial). '
               'IPv4 notation as "the normalized address is a function of the 32-bit value" (C10_equiv_ipv4_partial) and, through the host '
               'parser, for the whole URL (C10_equiv_ipv4_whole_url_partial); IPv6 literals relative to the address library (two literals with one '
-              'compressed form, C10_equiv_ipv6_whole_url_partial). Re-spelled user-info is NOT in the closure: it is checked on the '
-              'implementation for every generated URL (variants). The model is tied to the code on every run by evaluating it inside '
+              'compressed form, C10_equiv_ipv6_whole_url_partial); user-info relative to unquote (C10_equiv_userinfo_whole_url_partial). Every class is '
+              'also compared on the implementation for every generated URL (variants). The model is tied to the code on every run by evaluating it inside '
               'Coq against URLInfo.parse and all accessors.')
 LEVEL_NOTE = ('The model is a pure function of the string; that the implementation is one too although URLInfo.parse is memoised and its results are '
               'handed to other code is checked on every run (history check: parse, pass the results through URLRewriter and the accessors, parse again '
